@@ -73,6 +73,18 @@ theorem frag_group {ast : Ast} {sc : List Uid} (h : Frag ast sc) (db : DB) : (Sp
   | mutate i L metas _ hv hu hfresh hnd ih => simpa [Spec.run] using ih
 
 
+
+/-- what the summarize / window theorems need of the pipeline below: it compiles, the invariant of the row-level fragment holds,
+    and no grouping state is set - on the compiler side and in the reference semantics.  Satisfied by the row-level fragment
+    (`Frag.base`) and by joins of source tables followed by row-level verbs (`C06.JFrag.base`). -/
+structure Base (c : Ast) (sc : List Uid) : Prop where
+  ref : ∀ (db : DB) (needed : Needed), ∃ r n', compile c needed = .ok (r, n') ∧ Inv db sc r (Spec.run db c)
+  pb : ∀ needed r n', compile c needed = .ok (r, n') → r.query.partitionBy = []
+  gr : ∀ db : DB, (Spec.run db c).group = []
+
+theorem Frag.base {c : Ast} {sc : List Uid} (h : Frag c sc) : Base c sc :=
+  ⟨fun db needed => frag_refines h db needed, frag_partitionBy h, fun db => frag_group h db⟩
+
 /-! ### one aggregate over the rows of a unit, with the definitions inlined -/
 
 theorem evalList_head_inline (d : Defs) (f : Row → Row) (bs : List Row) (hag : ∀ b ∈ bs, Agree d b (f b)) (hd : DefsEwise d) :
@@ -197,15 +209,15 @@ theorem evalSelect_ungrouped_agg (base : List Row) (q : Query) (defs : Defs)
 
 /-- **refinement for an ungrouped summarize over the row-level fragment**: the compiled statement is accepted and
     evaluates to the (one-row) frame of the reference semantics, for every database and `needed_cols` state -/
-theorem sql_refines_spec_summarize {c : Ast} {sc : List Uid} (h : Frag c sc) (db : DB) (i : NodeId)
+theorem sql_refines_spec_summarize {c : Ast} {sc : List Uid} (h : Base c sc) (db : DB) (i : NodeId)
     (L : List (String × Uid × Expr)) (metas : List (Dtype × Ftype)) (hne : L ≠ [])
     (hv : ∀ t ∈ L, SimpleAgg sc t.2.2) (hfresh : ∀ t ∈ L, t.2.1 ∉ sc) (hnd : (L.map (·.2.1)).Nodup) (needed : Needed) :
     ∃ r n', compile (.summarize i c (L.map (·.1)) (L.map (·.2.2)) (L.map (·.2.1)) metas) needed = .ok (r, n') ∧
       Sql.run db r = (Spec.run db (.summarize i c (L.map (·.1)) (L.map (·.2.2)) (L.map (·.2.1)) metas)).frame := by
-  obtain ⟨r, n', hc, inv⟩ := frag_refines h db
+  obtain ⟨r, n', hc, inv⟩ := h.ref db
     ((uidsOfVerb (.summarize i c (L.map (·.1)) (L.map (·.2.2)) (L.map (·.2.1)) metas)).foldl Needed.incr needed)
-  have hpb := frag_partitionBy h _ r n' hc
-  have hgr := frag_group h db
+  have hpb := h.pb _ r n' hc
+  have hgr := h.gr db
   have hz : ((L.map (·.1)).zip ((L.map (·.2.1)).zip (L.map (·.2.2)))).map (fun nuv => (nuv.2.1, nuv.1, Sql.inline r.defs nuv.2.2)) = newDefs r.defs L := by
     rw [zip3_map, List.map_map]; rfl
   have hndkeys : (newDefs r.defs L).map (·.1) = L.map (·.2.1) := by unfold newDefs; rw [List.map_map]; rfl
